@@ -55,25 +55,25 @@ Proof. intros d [|b t] a2 H H'; [exact I|]. cbn [gap] in H. lia. Qed.
 (* scanning intervals that all start after a.start: m whole intervals are marked for removal, the next
    one may be trimmed in place *)
 Lemma rscan_after : forall emax cp t k a1 a2, iswf emax t -> (forall b, In b t -> a1 < fst b) ->
-  a1 <= a2 -> a2 <= emax ->
+  a1 <= a2 -> a2 <= emax -> k + N.of_nat (length t) < usize_max ->
   exists t' m x y, rscan emax t k (a1, a2) usize_max 0 cp = (t', RDone x y None) /\
     length t' = length t /\ (m <= length t)%nat /\ ref_rem a1 a2 t = skipn m t' /\
     ((m = 0%nat /\ x = usize_max /\ (y = 0 \/ y = k)) \/ ((0 < m)%nat /\ x = k /\ y = k + N.of_nat m)).
 Proof.
-  intros emax cp. induction t as [|b t IH]; intros k a1 a2 Hwf Hlt Ha Hae.
+  intros emax cp. induction t as [|b t IH]; intros k a1 a2 Hwf Hlt Ha Hae Hk.
   - exists [], 0%nat, usize_max, 0. cbn [rscan ref_rem skipn length]. repeat split; auto.
   - pose proof (Hlt b (or_introl eq_refl)) as Hb.
     pose proof (wf_after _ _ _ Hwf) as Haft.
     pose proof Hwf as Hwf0. cbn [iswf] in Hwf. destruct Hwf as (Hbv & Hbm & Hgap & Hwft).
-    destruct b as [c d]. cbn [fst snd] in *.
+    destruct b as [c d]. cbn [fst snd length] in *.
     cbn [rscan fst snd]. rewrite (proj2 (N.compare_lt_iff a1 c)) by assumption.
     cbn [ref_rem].
     destruct (N.ltb_spec d a1); [lia|].
     destruct (N.compare_spec a2 d) as [He|Hl|Hg].
     + (* (Less, Equal) *) subst d.
-      exists ((c, a2) :: t), 1%nat, k, (k + 1). replace (N.min usize_max k) with k by (unfold usize_max, u64_max in *; lia).
+      exists ((c, a2) :: t), 1%nat, k, (k + 1). replace (N.min usize_max k) with k by lia.
       replace (N.max 0 (k + 1)) with (k + 1) by lia.
-      split; [reflexivity|]. cbn [length skipn]. repeat split; try lia.
+      split; [reflexivity|]. cbn [length skipn]. split; [reflexivity|]. split; [lia|]. split.
       * destruct (N.ltb_spec a2 c); [lia|]. destruct (N.ltb_spec c a1); [lia|]. destruct (N.ltb_spec a2 a2); [lia|].
         cbn [app]. eapply ref_rem_beyond; [eassumption|assumption|]. eapply gap_beyond; [eassumption|lia].
       * right. repeat split; lia.
@@ -82,7 +82,7 @@ Proof.
       destruct (N.leb_spec c (a2 + 1)) as [Hco|Hno].
       * exists ((step_up_sat emax a2, d) :: t), 0%nat, usize_max, k.
         unfold end_exclusive. cbn [snd]. replace (N.max 0 k) with k by lia.
-        split; [reflexivity|]. cbn [length skipn]. repeat split; try lia.
+        split; [reflexivity|]. cbn [length skipn]. split; [reflexivity|]. split; [lia|]. split.
         -- unfold step_up_sat. destruct (N.ltb_spec a2 emax); [|lia].
            destruct (N.ltb_spec a2 c).
            ++ replace (a2 + 1) with c by lia. reflexivity.
@@ -90,26 +90,250 @@ Proof.
               eapply ref_rem_beyond; [eassumption|assumption|]. eapply gap_beyond; [eassumption|lia].
         -- left. auto.
       * exists ((c, d) :: t), 0%nat, usize_max, 0.
-        split; [reflexivity|]. cbn [length skipn]. repeat split; try lia.
+        split; [reflexivity|]. cbn [length skipn]. split; [reflexivity|]. split; [lia|]. split.
         -- destruct (N.ltb_spec a2 c); [reflexivity|lia].
         -- left. auto.
     + (* (Less, Greater): B is removed, continue *)
-      rewrite rscan_acc by (unfold usize_max, u64_max; lia).
+      rewrite rscan_acc by lia.
       destruct (IH (k + 1) a1 a2 Hwft) as (t' & m & x & y & E & Hlen & Hm & Href & Hxy); try assumption.
       { intros b' Hb'. pose proof (Haft b' Hb'). lia. }
+      { lia. }
       rewrite E. cbn [fst snd rcombine].
+      assert (Hr : (if a2 <? c then (c, d) :: t
+                    else (if c <? a1 then [(c, a1 - 1)] else []) ++ (if a2 <? d then [(a2 + 1, d)] else []) ++ ref_rem a1 a2 t)
+                   = skipn (S m) ((c, d) :: t')).
+      { destruct (N.ltb_spec a2 c); [lia|]. destruct (N.ltb_spec c a1); [lia|]. destruct (N.ltb_spec a2 d); [lia|].
+        cbn [app skipn]. exact Href. }
       exists ((c, d) :: t'), (S m).
       destruct Hxy as [(-> & -> & Hy)|(Hm0 & -> & ->)].
       * exists k, (k + 1). split.
-        { do 2 f_equal. f_equal; destruct Hy as [-> | ->]; unfold usize_max, u64_max; lia. }
-        cbn [length skipn]. repeat split; try lia.
-        -- destruct (N.ltb_spec a2 c); [lia|]. destruct (N.ltb_spec c a1); [lia|]. destruct (N.ltb_spec a2 d); [lia|].
-           cbn [app]. exact Href.
-        -- right. repeat split; lia.
+        { replace (N.min (N.min usize_max k) usize_max) with k by lia.
+          replace (N.max (N.max 0 (k + 1)) y) with (k + 1) by (destruct Hy as [-> | ->]; lia). reflexivity. }
+        cbn [length]. split; [lia|]. split; [lia|]. split; [exact Hr|].
+        right. repeat split; lia.
       * exists k, (k + N.of_nat (S m)). split.
-        { do 2 f_equal. f_equal; lia. }
-        cbn [length skipn]. repeat split; try lia.
-        -- destruct (N.ltb_spec a2 c); [lia|]. destruct (N.ltb_spec c a1); [lia|]. destruct (N.ltb_spec a2 d); [lia|].
-           cbn [app]. exact Href.
-        -- right. repeat split; lia.
+        { replace (N.min (N.min usize_max k) (k + 1)) with k by lia.
+          replace (N.max (N.max 0 (k + 1)) (k + 1 + N.of_nat m)) with (k + N.of_nat (S m)) by lia. reflexivity. }
+        cbn [length]. split; [lia|]. split; [lia|]. split; [exact Hr|].
+        right. repeat split; lia.
+Qed.
+
+(* ---------- Removal::apply ---------- *)
+Definition apply_rm (l' : list ival) (r : rscan_res) (cp : bool) : option (list ival * N) :=
+  match r with
+  | RFound idx => Some (l', idx)
+  | RDone rs re (Some p) =>
+      if cp then Some (firstn (N.to_nat rs) l' ++ p :: skipn (N.to_nat rs) l', rs) else None
+  | RDone rs re None =>
+      if re <? rs then Some (l', 0)
+      else if re - rs =? 0 then Some (l', rs)
+      else if re - rs =? 1 then Some (firstn (N.to_nat rs) l' ++ skipn (N.to_nat rs + 1) l', rs)
+      else Some (firstn (N.to_nat rs) l' ++ skipn (N.to_nat re) l', rs)
+  end.
+
+Lemma apply_rm_cut : forall l' rs re cp, rs <= re ->
+  apply_rm l' (RDone rs re None) cp = Some (firstn (N.to_nat rs) l' ++ skipn (N.to_nat re) l', rs).
+Proof.
+  intros. cbn [apply_rm]. destruct (N.ltb_spec re rs); [lia|].
+  destruct (N.eqb_spec (re - rs) 0).
+  - replace re with rs by lia. rewrite firstn_skipn. reflexivity.
+  - destruct (N.eqb_spec (re - rs) 1); [|reflexivity].
+    replace (N.to_nat rs + 1)%nat with (N.to_nat re) by lia. reflexivity.
+Qed.
+
+Lemma apply_rm_none : forall l' rs re cp, re < rs -> apply_rm l' (RDone rs re None) cp = Some (l', 0).
+Proof. intros. cbn [apply_rm]. destruct (N.ltb_spec re rs); [reflexivity|lia]. Qed.
+
+Lemma skipn_app_len : forall (p x : list ival) j, skipn (length p + j) (p ++ x) = skipn j x.
+Proof. induction p as [|h p IH]; intros; cbn [length app]; [reflexivity|]. cbn [Nat.add skipn]. apply IH. Qed.
+
+Lemma firstn_app_len : forall (p x : list ival) j, firstn (length p + j) (p ++ x) = p ++ firstn j x.
+Proof. intros. apply firstn_app_2. Qed.
+
+Lemma remove_at_unfold : forall emax l a si lim,
+  remove_at emax l a si lim =
+  let cp := match lim with Some lim => N.of_nat (length l) + 1 <? lim | None => true end in
+  let qr := rscan emax (skipn (N.to_nat si) l) si a usize_max 0 cp in
+  apply_rm (firstn (N.to_nat si) l ++ fst qr) (snd qr) cp.
+Proof.
+  intros. unfold remove_at. cbn zeta.
+  destruct (rscan emax (skipn (N.to_nat si) l) si a usize_max 0 _) as [q' r]. cbn [fst snd].
+  destruct r as [idx|rs re [p|]]; reflexivity.
+Qed.
+
+Definition idx_ok (res : list ival) (idx : N) (p : list ival) (a2 : N) : Prop :=
+  idx = 0 \/ exists r, firstn (N.to_nat idx) res = p ++ r /\ forall b, In b r -> snd b <= a2.
+
+Lemma idx_ok_at : forall p x k a2 r, N.of_nat (length p) = k -> firstn (length r) x = r ->
+  (length r <= length x)%nat -> (forall b, In b r -> snd b <= a2) ->
+  idx_ok (p ++ x) (k + N.of_nat (length r)) p a2.
+Proof.
+  intros p x k a2 r Hk Hf Hl Hr. right. exists r. split; [|assumption].
+  replace (N.to_nat (k + N.of_nat (length r))) with (length p + length r)%nat by lia.
+  rewrite firstn_app_len. f_equal. exact Hf.
+Qed.
+
+Ltac norm_idx p :=
+  repeat match goal with
+  | |- context [N.to_nat (N.of_nat (length p))] => rewrite Nat2N.id
+  end.
+
+Lemma cut_app : forall (p x : list ival) k i j, N.of_nat (length p) = k ->
+  firstn (N.to_nat (k + N.of_nat i)) (p ++ x) ++ skipn (N.to_nat (k + N.of_nat j)) (p ++ x)
+  = p ++ firstn i x ++ skipn j x.
+Proof.
+  intros p x k i j Hk.
+  replace (N.to_nat (k + N.of_nat i)) with (length p + i)%nat by lia.
+  replace (N.to_nat (k + N.of_nat j)) with (length p + j)%nat by lia.
+  rewrite firstn_app_len, skipn_app_len, app_assoc. reflexivity.
+Qed.
+
+Lemma rscan_main : forall emax cp q k p a1 a2,
+  N.of_nat (length p) = k -> iswf emax q -> a1 <= a2 -> a2 <= emax ->
+  k + N.of_nat (length q) < usize_max ->
+  match apply_rm (p ++ fst (rscan emax q k (a1, a2) usize_max 0 cp))
+                 (snd (rscan emax q k (a1, a2) usize_max 0 cp)) cp with
+  | Some (res, idx) => res = p ++ ref_rem a1 a2 q /\ idx_ok res idx p a2 /\
+                       ((length q < length (ref_rem a1 a2 q))%nat -> cp = true)
+  | None => (length q < length (ref_rem a1 a2 q))%nat /\ cp = false
+  end.
+Proof.
+  intros emax cp. induction q as [|b t IH]; intros k p a1 a2 Hk Hwf Ha Hae Hlen.
+  - cbn [rscan fst snd]. rewrite apply_rm_none by (unfold usize_max, u64_max; lia).
+    cbn [ref_rem length]. repeat split; [left; reflexivity|lia].
+  - pose proof (wf_after _ _ _ Hwf) as Haft.
+    pose proof Hwf as Hwf0. cbn [iswf] in Hwf. destruct Hwf as (Hbv & Hbm & Hgap & Hwft).
+    destruct b as [c d]. cbn [fst snd length] in *.
+    assert (Hmin : N.min usize_max k = k) by lia.
+    assert (Hmin1 : N.min usize_max (k + 1) = k + 1) by lia.
+    assert (Hmax1 : N.max 0 (k + 1) = k + 1) by lia.
+    assert (Hmax0 : N.max 0 k = k) by lia.
+    assert (Hbey : forall x, x <= d + 1 -> a1 <= x -> ref_rem a1 x t = t).
+    { intros x Hx Hx'. eapply ref_rem_beyond; [eassumption|assumption|]. eapply gap_beyond; eassumption. }
+    assert (Hk0 : k = k + N.of_nat 0) by lia.
+    assert (Hk1 : k + 1 = k + N.of_nat 1) by lia.
+    cbn [rscan fst snd]. cbn [ref_rem].
+    destruct (N.compare_spec a1 c) as [E1|L1|G1]; destruct (N.compare_spec a2 d) as [E2|L2|G2].
+    + (* (Equal, Equal) *) subst a1 a2. cbn [fst snd]. rewrite Hmin, Hmax1, apply_rm_cut by lia.
+      rewrite Hk1 at 2. rewrite Hk0 at 1. Show. rewrite cut_app by reflexivity. cbn [firstn skipn app].
+      destruct (N.ltb_spec d c); [lia|]. destruct (N.ltb_spec d c); [lia|]. destruct (N.ltb_spec c c); [lia|].
+      destruct (N.ltb_spec d d); [lia|]. cbn [app]. rewrite Hbey by lia.
+      split; [reflexivity|]. split; [|cbn [length]; lia].
+      rewrite Hk0. apply (idx_ok_at p t _ d []); auto. cbn; lia. intros ? [].
+    + (* (Equal, Less) *) subst a1. cbn [fst snd apply_rm].
+      unfold end_exclusive, step_up_sat. cbn [snd]. destruct (N.ltb_spec a2 emax); [|lia].
+      destruct (N.ltb_spec d c); [lia|]. destruct (N.ltb_spec a2 c); [lia|]. destruct (N.ltb_spec c c); [lia|].
+      destruct (N.ltb_spec a2 d); [|lia]. cbn [app]. rewrite Hbey by lia.
+      split; [reflexivity|]. split; [|cbn [length]; lia].
+      rewrite Hk0. apply (idx_ok_at p _ _ a2 []); auto. cbn; lia. intros ? [].
+    + (* (Equal, Greater) *) subst a1.
+      rewrite rscan_acc by lia.
+      destruct (rscan_after emax cp t (k + 1) c a2 Hwft) as (t' & m & x & y & E & Hl' & Hm & Href & Hxy); try assumption; try lia.
+      { intros b' Hb'. pose proof (Haft b' Hb'). lia. }
+      rewrite E. cbn [fst snd rcombine].
+      assert (Ers : N.min (N.min usize_max k) x = k) by (destruct Hxy as [(_ & -> & _)|(_ & -> & _)]; lia).
+      assert (Ere : N.max (N.max 0 (k + 1)) y = k + N.of_nat (S m)).
+      { destruct Hxy as [(-> & _ & [->| ->])|(_ & _ & ->)]; lia. }
+      rewrite Ers, Ere, apply_rm_cut by lia.
+      rewrite Hk0 at 1. rewrite cut_app by reflexivity. cbn [firstn skipn app].
+      destruct (N.ltb_spec d c); [lia|]. destruct (N.ltb_spec a2 c); [lia|]. destruct (N.ltb_spec c c); [lia|].
+      destruct (N.ltb_spec a2 d); [lia|]. cbn [app]. rewrite Href.
+      split; [reflexivity|]. split.
+      * rewrite Hk0. apply (idx_ok_at p _ _ a2 []); auto. cbn; lia. intros ? [].
+      * rewrite <- Href. cbn [length]. intros Hlt. exfalso.
+        assert (length (ref_rem c a2 t) <= length t)%nat by (rewrite Href, skipn_length; lia). lia.
+    + (* (Less, Equal) *) subst a2. cbn [fst snd]. rewrite Hmin, Hmax1, apply_rm_cut by lia.
+      rewrite Hk1 at 2. rewrite Hk0 at 1. rewrite cut_app by reflexivity. cbn [firstn skipn app].
+      destruct (N.ltb_spec d a1); [lia|]. destruct (N.ltb_spec d c); [lia|]. destruct (N.ltb_spec c a1); [lia|].
+      destruct (N.ltb_spec d d); [lia|]. cbn [app]. rewrite Hbey by lia.
+      split; [reflexivity|]. split; [|cbn [length]; lia].
+      rewrite Hk0. apply (idx_ok_at p t _ d []); auto. cbn; lia. intros ? [].
+    + (* (Less, Less) *)
+      rewrite coalesce_lt by (cbn [snd]; lia). cbn [fst snd].
+      destruct (N.ltb_spec d a1); [lia|].
+      destruct (N.leb_spec c (a2 + 1)) as [Hco|Hno]; cbn [fst snd].
+      * rewrite Hmax0, apply_rm_none by lia.
+        unfold end_exclusive, step_up_sat. cbn [snd]. destruct (N.ltb_spec a2 emax); [|lia].
+        split; [|split; [left; reflexivity|]].
+        -- f_equal. destruct (N.ltb_spec a2 c).
+           ++ replace (a2 + 1) with c by lia. reflexivity.
+           ++ destruct (N.ltb_spec c a1); [lia|]. destruct (N.ltb_spec a2 d); [|lia]. cbn [app]. rewrite Hbey by lia. reflexivity.
+        -- destruct (N.ltb_spec a2 c); [cbn [length]; lia|].
+           destruct (N.ltb_spec c a1); [lia|]. destruct (N.ltb_spec a2 d); [|lia]. cbn [app]. rewrite Hbey by lia. cbn [length]; lia.
+      * rewrite apply_rm_none by lia. destruct (N.ltb_spec a2 c); [|lia].
+        split; [reflexivity|]. split; [left; reflexivity|cbn [length]; lia].
+    + (* (Less, Greater) *)
+      rewrite rscan_acc by lia.
+      destruct (rscan_after emax cp t (k + 1) a1 a2 Hwft) as (t' & m & x & y & E & Hl' & Hm & Href & Hxy); try assumption; try lia.
+      { intros b' Hb'. pose proof (Haft b' Hb'). lia. }
+      rewrite E. cbn [fst snd rcombine].
+      assert (Ers : N.min (N.min usize_max k) x = k) by (destruct Hxy as [(_ & -> & _)|(_ & -> & _)]; lia).
+      assert (Ere : N.max (N.max 0 (k + 1)) y = k + N.of_nat (S m)).
+      { destruct Hxy as [(-> & _ & [->| ->])|(_ & _ & ->)]; lia. }
+      rewrite Ers, Ere, apply_rm_cut by lia.
+      rewrite Hk0 at 1. rewrite cut_app by reflexivity. cbn [firstn skipn app].
+      destruct (N.ltb_spec d a1); [lia|]. destruct (N.ltb_spec a2 c); [lia|]. destruct (N.ltb_spec c a1); [lia|].
+      destruct (N.ltb_spec a2 d); [lia|]. cbn [app]. rewrite Href.
+      split; [reflexivity|]. split.
+      * rewrite Hk0. apply (idx_ok_at p _ _ a2 []); auto. cbn; lia. intros ? [].
+      * rewrite <- Href. cbn [length]. intros Hlt. exfalso.
+        assert (length (ref_rem a1 a2 t) <= length t)%nat by (rewrite Href, skipn_length; lia). lia.
+    + (* (Greater, Equal) *) subst a2. cbn [fst snd apply_rm]. unfold start_exclusive, step_down_sat. cbn [fst].
+      destruct (N.ltb_spec d a1); [lia|]. destruct (N.ltb_spec d c); [lia|]. destruct (N.ltb_spec c a1); [|lia].
+      destruct (N.ltb_spec d d); [lia|]. cbn [app]. rewrite Hbey by lia.
+      split; [reflexivity|]. split; [|cbn [length]; lia].
+      rewrite Hk1. apply (idx_ok_at p _ _ d [(c, a1 - 1)]); auto. cbn; lia.
+      intros ? [<-|[]]. cbn [snd]. lia.
+    + (* (Greater, Less): split *)
+      destruct (N.ltb_spec d a1); [lia|]. destruct (N.ltb_spec a2 c); [lia|]. destruct (N.ltb_spec c a1); [|lia].
+      destruct (N.ltb_spec a2 d); [|lia]. cbn [app]. rewrite Hbey by lia.
+      destruct cp; cbn [fst snd apply_rm].
+      * rewrite Hmin1. unfold start_exclusive, step_down_sat, end_exclusive, step_up_sat. cbn [fst snd].
+        destruct (N.ltb_spec a2 emax); [|lia].
+        replace (N.to_nat (k + 1)) with (length p + 1)%nat by lia.
+        rewrite firstn_app_len, skipn_app_len. cbn [firstn skipn].
+        split; [rewrite <- app_assoc; reflexivity|]. split; [|reflexivity].
+        rewrite <- app_assoc. cbn [app]. rewrite Hk1. apply (idx_ok_at p _ _ a2 [(c, a1 - 1)]); auto. cbn; lia.
+        intros ? [<-|[]]. cbn [snd]. lia.
+      * split; [cbn [length]; lia|reflexivity].
+    + (* (Greater, Greater) *)
+      rewrite coalesce_lt by (cbn [snd]; lia). cbn [fst snd].
+      destruct (N.leb_spec a1 (d + 1)) as [Hco|Hno].
+      * rewrite rscan_acc by lia.
+        destruct (rscan_after emax cp t (k + 1) a1 a2 Hwft) as (t' & m & x & y & E & Hl' & Hm & Href & Hxy); try assumption; try lia.
+        { intros b' Hb'. pose proof (Haft b' Hb'). lia. }
+        rewrite E. cbn [fst snd rcombine]. unfold start_exclusive, step_down_sat. cbn [fst].
+        assert (Hres : (if d <? a1 then (c, d) :: ref_rem a1 a2 t
+                        else if a2 <? c then (c, d) :: t
+                        else (if c <? a1 then [(c, a1 - 1)] else []) ++ (if a2 <? d then [(a2 + 1, d)] else []) ++ ref_rem a1 a2 t)
+                       = (c, a1 - 1) :: skipn m t').
+        { destruct (N.ltb_spec d a1).
+          - replace (a1 - 1) with d by lia. rewrite Href. reflexivity.
+          - destruct (N.ltb_spec a2 c); [lia|]. destruct (N.ltb_spec c a1); [|lia]. destruct (N.ltb_spec a2 d); [lia|].
+            cbn [app]. rewrite Href. reflexivity. }
+        rewrite Hres.
+        assert (Hlenres : (length ((c, a1 - 1) :: skipn m t') <= S (length t))%nat) by (cbn [length]; rewrite skipn_length; lia).
+        destruct Hxy as [(-> & -> & [-> | ->])|(Hm0 & -> & ->)].
+        -- rewrite Hmin1. replace (N.min (k + 1) usize_max) with (k + 1) by lia. replace (N.max 0 0) with 0 by lia.
+           rewrite apply_rm_none by lia. cbn [skipn]. split; [reflexivity|]. split; [left; reflexivity|]. cbn [length] in *. lia.
+        -- rewrite Hmin1. replace (N.min (k + 1) usize_max) with (k + 1) by lia. replace (N.max 0 (k + 1)) with (k + 1) by lia.
+           rewrite apply_rm_cut by lia. rewrite firstn_skipn. cbn [skipn]. split; [reflexivity|]. split; [|cbn [length] in *; lia].
+           rewrite Hk1. apply (idx_ok_at p _ _ a2 [(c, a1 - 1)]); auto. cbn; lia. intros ? [<-|[]]. cbn [snd]. lia.
+        -- rewrite Hmin1. replace (N.min (k + 1) (k + 1)) with (k + 1) by lia.
+           replace (N.max 0 (k + 1 + N.of_nat m)) with (k + N.of_nat (S m)) by lia.
+           rewrite apply_rm_cut by lia. rewrite Hk1 at 1. rewrite cut_app by reflexivity. cbn [firstn skipn app].
+           split; [reflexivity|]. split; [|cbn [length] in *; lia].
+           rewrite Hk1. apply (idx_ok_at p _ _ a2 [(c, a1 - 1)]); auto. cbn; lia. intros ? [<-|[]]. cbn [snd]. lia.
+      * destruct (N.ltb_spec d a1); [|lia].
+        specialize (IH (k + 1) (p ++ [(c, d)]) a1 a2).
+        rewrite app_length in IH. cbn [length] in IH. specialize (IH ltac:(lia) Hwft Ha Hae ltac:(lia)).
+        destruct (rscan emax t (k + 1) (a1, a2) usize_max 0 cp) as [t' r]. cbn [fst snd] in *.
+        rewrite <- app_assoc in IH. cbn [app] in IH.
+        destruct (apply_rm (p ++ (c, d) :: t') r cp) as [[res idx]|].
+        -- destruct IH as (Hres & Hidx & Hcp). rewrite <- app_assoc in Hres. cbn [app] in Hres.
+           split; [exact Hres|]. split; [|cbn [length]; intros; apply Hcp; lia].
+           destruct Hidx as [->|(r0 & Hr0 & Hr1)]; [left; reflexivity|]. right. exists ((c, d) :: r0).
+           rewrite <- app_assoc in Hr0. cbn [app] in Hr0. split; [exact Hr0|].
+           intros b' [<-|Hb']; [cbn [snd]; lia|auto].
+        -- destruct IH as [H1 H2]. split; [cbn [length]; lia|exact H2].
 Qed.
